@@ -12,18 +12,20 @@ import (
 	"verif/harness/sched"
 )
 
-func init() { register("race", "2-3 processes racing key creation, interleaved at metastore-call granularity (C14)", runRace) }
+func init() {
+	register("race", "2-3 processes racing key creation, interleaved at metastore-call granularity (C14)", runRace)
+}
 
 type raceCase struct {
-	State string   `json:"state"` // cold, warm, ik-expired, sk-expired, ik-revoked, sk-revoked
-	Cfg   string   `json:"cfg"`
-	Procs int      `json:"procs"`
-	Seed  uint64   `json:"seed"`
-	Trace []string `json:"trace,omitempty"`
-	Viol  []string `json:"viol,omitempty"`
-	Rows  int      `json:"rows"`
-	Stores int     `json:"stores"`
-	Refused int    `json:"refused"`
+	State   string   `json:"state"` // cold, warm, ik-expired, sk-expired, ik-revoked, sk-revoked, sk-revoked-mixed, sk-expired-mixed
+	Cfg     string   `json:"cfg"`
+	Procs   int      `json:"procs"`
+	Seed    uint64   `json:"seed"`
+	Trace   []string `json:"trace,omitempty"`
+	Viol    []string `json:"viol,omitempty"`
+	Rows    int      `json:"rows"`
+	Stores  int      `json:"stores"`
+	Refused int      `json:"refused"`
 }
 
 func runRaceCase(c *raceCase) {
@@ -71,6 +73,30 @@ func runRaceCase(c *raceCase) {
 			x.ms.Revoke("_SK_svc_prod", row.Created)
 		}
 	}
+	var warmed *ae.SessionFactory
+	if c.State == "sk-revoked-mixed" || c.State == "sk-expired-mixed" {
+		// process 0 has been running for a while (it holds the system key in its cache and is not due to re-check it); then the
+		// system key is revoked / reaches its expiry, and the other processes start cold: the racers disagree about the system key
+		ob := x.do(EnvOp{K: "newfactory", Policy: &pol, Svc: gen.H("svc"), Prod: gen.H("prod")})
+		warmed = x.facts[ob.N]
+		if c.State == "sk-expired-mixed" {
+			// created long ago by someone else, so that it expires 2 s after process 0 cached it
+			prepAt := x.now
+			prep()
+			x.now = prepAt + pol.Expire - 2*secNs
+		}
+		s0, _ := warmed.GetSession("other")
+		if _, err := s0.Encrypt(ctx, []byte("warm-up")); err != nil {
+			vs.add("warm-up encrypt failed: %v", err)
+		}
+		s0.Close()
+		x.now += 3 * secNs
+		if c.State == "sk-revoked-mixed" {
+			if row := x.ms.Latest("_SK_svc_prod"); row != nil {
+				x.ms.Revoke("_SK_svc_prod", row.Created)
+			}
+		}
+	}
 	before := x.ms.Snapshot()
 	x.tr.Take()
 	s := sched.New(r.Fork())
@@ -86,8 +112,11 @@ func runRaceCase(c *raceCase) {
 	var mu sync.Mutex
 	for i := 0; i < c.Procs; i++ {
 		i := i
-		ob := x.do(EnvOp{K: "newfactory", Policy: &pol, Svc: gen.H("svc"), Prod: gen.H("prod")})
-		f := x.facts[ob.N]
+		f := warmed
+		if i > 0 || f == nil {
+			ob := x.do(EnvOp{K: "newfactory", Policy: &pol, Svc: gen.H("svc"), Prod: gen.H("prod")})
+			f = x.facts[ob.N]
+		}
 		s.Go(fmt.Sprintf("proc%d", i), func() {
 			sess, err := f.GetSession("p")
 			if err != nil {
@@ -187,7 +216,7 @@ func runRace(a *args) error {
 		runRaceCase(c)
 		return gen.WriteJSON(a.out, map[string]any{"cases": []*raceCase{c}})
 	}
-	states := []string{"cold", "warm", "ik-expired", "sk-expired", "ik-revoked", "sk-revoked"}
+	states := []string{"cold", "warm", "ik-expired", "sk-expired", "ik-revoked", "sk-revoked", "sk-revoked-mixed", "sk-expired-mixed"}
 	cfgs := []string{"default", "minute", "nocache", "shared-lru2"}
 	for i := 0; i < a.n; i++ {
 		c := &raceCase{State: states[i%len(states)], Cfg: cfgs[(i/len(states))%len(cfgs)], Procs: 2 + r.Intn(2), Seed: r.U64()}
